@@ -325,6 +325,13 @@ def run(ck):
                 mk = lambda op, via, servers=(): {"call": {"op": op, "c": c, "h": h, "servers": list(servers)}, "spoof": "none", "via": via}
                 walks.append([mk(first, a), mk("publish", a, ["n1", "n2"]), mk("release", bb), mk("publish", a, ["n1"]), mk("unpublish", a),
                               mk(first, bb), mk("publish", bb, ["n2"]), mk("unpublish", a), mk("publish", a, ["n3"]), mk("release", a), mk("publish", bb, ["n1"])])
+        # directed: a route slot of the hostname cannot be deleted while the request runs (the ring node holding it is unreachable): an unpublish /
+        # release that reports success must still have removed everything
+        for c, h, first in (("A", "g1", "generate"), ("B", "x1", "validate")):
+            for slot in (1, 2, 3):
+                mk = lambda op, servers=(), delfail=0: {"call": {"op": op, "c": c, "h": h, "servers": list(servers)}, "spoof": "none", "via": 1, "delfail": delfail}
+                walks.append([mk(first), mk("publish", ["n1", "n2", "n3"]), mk("unpublish", delfail=slot), mk("unpublish"),
+                              mk("publish", ["n1", "n2", "n3"]), mk("release", delfail=slot), mk("release"), mk("publish", ["n1"])])
         ck.exhaustive = True   # of the bounded graph (every edge executed at least once)
 
     b = join(tb, "build")
@@ -337,7 +344,7 @@ def run(ck):
                 st["spoof"] = ck.rng.choice(["none", "other", "other", "junk"])
             if "via" not in st:        # the edge node the client calls (both serve the same ring store): part of the input as well
                 st["via"] = ck.rng.choice([1, 2])
-    recs = ck.drive(b, ["publish"], input_lines=[{"steps": [dict(s["call"], spoof=s["spoof"], via=s["via"]) for s in w]} for w in walks], timeout=1500)
+    recs = ck.drive(b, ["publish"], input_lines=[{"steps": [dict(s["call"], spoof=s["spoof"], via=s["via"], delfail=s.get("delfail", 0)) for s in w]} for w in walks], timeout=1500)
     byi = {x["i"]: x["o"] for x in recs if "i" in x}
     if len(byi) != len(walks):
         raise vf.Infra("driver answered %d of %d walks\n%s" % (len(byi), len(walks), getattr(ck, "last_stderr", "")[-2000:]))
@@ -416,7 +423,7 @@ def run(ck):
                              "%s; request=%s by %s (claimed identity: %s) outcome=%s pre=%s post=%s" % (
                                  names[clause], json.dumps(rec["call"]), rec["call"]["c"], o.get("spoof"), o.get("code"),
                                  json.dumps(rec["pre"]), json.dumps(rec["post"])),
-                             {"steps": [{"call": s["call"], "spoof": s["spoof"], "via": s["via"]} for s in prefix]})
+                             {"steps": [{"call": s["call"], "spoof": s["spoof"], "via": s["via"], "delfail": s.get("delfail", 0)} for s in prefix]})
     if getattr(ck, "race_divergence", None) and not ck.viol:
         raise vf.Infra(ck.race_divergence)
     if differs:
